@@ -445,11 +445,17 @@ func makeObjectIsVariadicParamFilter(src, varname string) filterFunc {
 		if obj == nil {
 			return false
 		}
-		if params.currentFunc != nil {
-			funcObj, ok := params.ctx.Types.ObjectOf(params.currentFunc.Name).(*types.Func)
-			if ok && isVariadicParamOf(funcObj.Type().(*types.Signature), obj) {
-				return true
-			}
+		isVariadicParamOfDecl := func(decl *ast.FuncDecl) bool {
+			funcObj, ok := params.ctx.Types.ObjectOf(decl.Name).(*types.Func)
+			return ok && isVariadicParamOf(funcObj.Type().(*types.Signature), obj)
+		}
+		if params.currentFunc != nil && isVariadicParamOfDecl(params.currentFunc) {
+			return true
+		}
+		// The match can be the function declaration itself:
+		// currentFunc is set only while its children are walked.
+		if decl, ok := params.match.Node().(*ast.FuncDecl); ok && isVariadicParamOfDecl(decl) {
+			return true
 		}
 		// It can also be a parameter of an enclosing function literal.
 		for i := 0; i < params.nodePath.Len(); i++ {
